@@ -3,5 +3,7 @@ CONSTANTS
   MaxDepth = 2
   SampleSize = 0
   NegUnionFlipsEach = TRUE
+  FalsyObjs = {}
+  OperandTruthFilter = FALSE
 SPECIFICATION Spec
 INVARIANT EngineSound
